@@ -81,11 +81,14 @@ SelIdx(n, sel) ==
   CASE sel.k = "int"   -> << NormIdx(n, sel.v) >>
     [] sel.k = "slice" -> SliceSeq(n, sel)
     [] sel.k = "list"  -> [i \in 1..Len(sel.v) |-> NormIdx(n, sel.v[i])]
+    \* a boolean index array (sel.v : 0 / 1 per element): the positions that are true
+    [] sel.k = "bool"  -> SelectSeq([i \in 1..n |-> i - 1], LAMBDA i : sel.v[i + 1] = 1)
 
 SelInDomain(n, sel) ==
   CASE sel.k = "int"   -> InRange(n, sel.v)
     [] sel.k = "slice" -> (~sel.h[3] \/ sel.v[3] # 0)
     [] sel.k = "list"  -> \A i \in 1..Len(sel.v) : InRange(n, sel.v[i])
+    [] sel.k = "bool"  -> Len(sel.v) = n /\ \E i \in 1..n : sel.v[i] = 1
 
 \* ------------------------------------------------------------------- arrays
 \* an array value a has a.shape, a.vals (row-major cells), a.mask (booleans)
